@@ -211,7 +211,8 @@ mod proofs {
             crate::witness!(true, "WITNESS reached");
         }
     )*}; }
-    // the input map is a std HashMap (hashbrown + SipHash under CBMC): > 240 s even for two entries; thorough tier only
-    #[cfg(feature = "thorough")]
-    inps! { c19_t_inputs_xy_read_x = (true, true); c19_t_inputs_xy_read_y = (true, false); c19_t_inputs_yx_read_x = (false, true); c19_t_inputs_yx_read_y = (false, false); }
+    // (named inputs in both declaration orders were measured and dropped: the input map is a std HashMap --
+    // hashbrown + SipHash under CBMC -- and two inserts plus one lookup exceed 25 min; `inputs()` above is kept
+    // for reference and is not compiled into any harness)
+
 }
